@@ -82,7 +82,7 @@ type Conn struct {
 // Net is the simulated network.
 type Net struct {
 	s       *Sim
-	mu      sync.Mutex
+	mu      quietMutex
 	hosts   map[string]http.Handler
 	conns   []*Conn
 	Faults  NetFaults
@@ -148,6 +148,8 @@ func newNet(s *Sim) *Net {
 }
 
 // Serve registers handler under host (e.g. "srv1").
+//
+//go:norace
 func (n *Net) Serve(host string, h http.Handler) {
 	n.mu.Lock()
 	n.hosts[host] = h
@@ -155,13 +157,32 @@ func (n *Net) Serve(host string, h http.Handler) {
 }
 
 // Unserve removes a host (subsequent requests are refused).
+//
+//go:norace
 func (n *Net) Unserve(host string) {
 	n.mu.Lock()
 	delete(n.hosts, host)
 	n.mu.Unlock()
 }
 
+// register adds the exchange to the record and looks the host up.
+//
+//go:norace
+func (n *Net) register(c *Conn, host string) http.Handler {
+	n.mu.Lock()
+	c.ID = len(n.conns)
+	n.conns = append(n.conns, c)
+	h := n.hosts[host]
+	n.mu.Unlock()
+	n.s.mu.Lock()
+	c.SentStep = n.s.step
+	n.s.mu.Unlock()
+	return h
+}
+
 // Conns returns the exchanges so far.
+//
+//go:norace
 func (n *Net) Conns() []*Conn {
 	n.mu.Lock()
 	defer n.mu.Unlock()
@@ -238,14 +259,7 @@ func (n *Net) RoundTrip(req *http.Request) (*http.Response, error) {
 		ReqHeader: req.Header.Clone(), ReqBody: body, Client: me.Name, n: n,
 		notify: make(chan struct{}), finished: make(chan struct{}), SentAt: s.Now(),
 	}
-	n.mu.Lock()
-	c.ID = len(n.conns)
-	n.conns = append(n.conns, c)
-	h := n.hosts[req.URL.Host]
-	n.mu.Unlock()
-	s.mu.Lock()
-	c.SentStep = s.step
-	s.mu.Unlock()
+	h := n.register(c, req.URL.Host)
 	if n.OnConn != nil {
 		n.OnConn(c)
 	}
@@ -413,9 +427,7 @@ func (n *Net) RoundTrip(req *http.Request) (*http.Response, error) {
 		}
 		s.Yield(fmt.Sprintf("net.headers#woke c%d", c.ID))
 	}
-	s.mu.Lock()
-	c.HeadersAtStep = s.step
-	s.mu.Unlock()
+	c.HeadersAtStep = s.StepNow()
 	return n.response(req, c), nil
 }
 
